@@ -19,7 +19,7 @@ RULE = (
     "isin (delayed operand), loc slice, merge with a single-partition frame, broadcast join, shuffle, repartition, two-step chains} x selections {partitions[i], slices, reordered and repeated lists, "
     "get_partition, to_delayed()[i], nested partitions[P][Q], head(n, npartitions=k) for n around the partition sizes and k in {1,2,-1}, tail(n)}. Oracle: the per-partition outputs p_0..p_m-1 of the "
     "UNOPTIMIZED lowering of x: partitions[P] must consist of exactly [p_i for i in P] (multiset per partition after a shuffle), reported npartitions/divisions truthful (C06 predicate), "
-    "head = concat(p_0..p_k-1).head(n), tail = p_m-1.tail(n); a selection that raises where x computes is a violation. non-trivial = P is not all partitions in order and the optimized plan has no "
+    "head = concat(p_0..p_k-1).head(n), tail = p_m-1.tail(n), also head/tail OF a partition selection x.partitions[P].head(n, npartitions=k) = concat(p_P[0..k-1]).head(n); a selection that raises where x computes is a violation. non-trivial = P is not all partitions in order and the optimized plan has no "
     "Partitions node left (the selection was pushed into the plan); distinct by (source, chain, selection)"
 )
 ASSUMPTIONS = ["head()'s documented 'Insufficient elements' warning is allowed; the returned rows must still be the first rows of the selected partitions", "timeseries uses a fixed seed"]
@@ -158,6 +158,11 @@ def selections(m):
             if k <= m:
                 sel.append(("head", [n, k]))
         sel.append(("tail", [n]))
+    # leading / trailing rows OF a partition selection (the selection is pushed into the source first)
+    if m >= 2:
+        sel += [("sel_head", [[m - 1, 0], 3, 1]), ("sel_head", [[m - 1, 0], 10, -1]), ("sel_head", [[1], 2, 1]), ("sel_tail", [[m - 1, 0], 3])]
+    if m >= 3:
+        sel += [("sel_head", [[1, 2, 0], 3, 1]), ("sel_head", [[2, 0], 10, 2]), ("sel_head", [[0, 2], 10, -1]), ("sel_tail", [[2, 1], 2])]
     return sel
 
 
@@ -248,6 +253,24 @@ def check(case):
                     d = _part_equal(got, parts[arg], ordered is True or sortedmode, cname not in UNINDEXED)
                     if d is not None:
                         failures.append(Failure("to_delayed-differs", f"{label}: {d}", extra={"bucket_hint": "to_delayed", "only": [kind, arg]}).record())
+                elif kind in ("sel_head", "sel_tail"):
+                    if ordered is False or not isinstance(parts[0], (pd.DataFrame, pd.Series)):
+                        continue
+                    P = arg[0]
+                    sub = x.partitions[P]
+                    if kind == "sel_head":
+                        n, k = arg[1], arg[2]
+                        got = sub.head(n, npartitions=k, compute=True)
+                        kk = len(P) if k == -1 else k
+                        exp = pd.concat([parts[i] for i in P[:kk]]).head(n)
+                    else:
+                        n = arg[1]
+                        got = sub.tail(n, compute=True)
+                        exp = parts[P[-1]].tail(n)
+                    d = equiv(got, exp, order=True, index=cname not in UNINDEXED, dtypes="exact")
+                    if d is not None:
+                        failures.append(Failure("selection-head-differs" if kind == "sel_head" else "selection-tail-differs", f"{label}: {d}", extra={"bucket_hint": kind, "only": [kind, arg]}).record())
+                    nts.append(f"{sname}/{cname}/{kind}{arg}")
                 elif kind in ("head", "tail"):
                     if ordered is False:
                         continue  # row order inside shuffled partitions is unspecified
